@@ -1,0 +1,31 @@
+//go:build verif
+
+package structure
+
+// Contracts for contract-based verification (/verif, property C16).
+
+// A method of the source API carries the verb of the http rule it was declared with, and its path is
+// the rule's path with every "{field}" segment replaced by ":" + the JSON name of that request
+// field (a segment is rewritten only when the request message has the field), every other segment
+// unchanged.
+//@ spec func isParam(s string) bool = len(s) >= 1 && s[0] == '{' && s[len(s)-1] == '}'
+//@ func buildMethod
+//@   requires service != nil && method != nil
+//@   assert at strings.Join#0 shape: len(arg0) == splitN(rulePathOf(httpOpt), "/")
+//@   |   && (forall j int {arg0[j]} :: 0 <= j && j < len(arg0) ==> (splitAt(rulePathOf(httpOpt), "/", j) == "" || !isParam(splitAt(rulePathOf(httpOpt), "/", j)) ==> arg0[j] == splitAt(rulePathOf(httpOpt), "/", j)))
+//@   |   && (forall j int {arg0[j]} :: 0 <= j && j < len(arg0) ==> (splitAt(rulePathOf(httpOpt), "/", j) != "" && isParam(splitAt(rulePathOf(httpOpt), "/", j)) ==> hasPrefix(arg0[j], ":")))
+//@   assert at strings.Join#0 verb: (typeis(httpOpt.Pattern, *annotations.HttpRule_Get) ==> builtMethod.HttpMethod == client_j5pb.HTTPMethod_HTTP_METHOD_GET)
+//@   |   && (typeis(httpOpt.Pattern, *annotations.HttpRule_Post) ==> builtMethod.HttpMethod == client_j5pb.HTTPMethod_HTTP_METHOD_POST)
+//@   |   && (typeis(httpOpt.Pattern, *annotations.HttpRule_Put) ==> builtMethod.HttpMethod == client_j5pb.HTTPMethod_HTTP_METHOD_PUT)
+//@   |   && (typeis(httpOpt.Pattern, *annotations.HttpRule_Delete) ==> builtMethod.HttpMethod == client_j5pb.HTTPMethod_HTTP_METHOD_DELETE)
+//@   |   && (typeis(httpOpt.Pattern, *annotations.HttpRule_Patch) ==> builtMethod.HttpMethod == client_j5pb.HTTPMethod_HTTP_METHOD_PATCH)
+//@   loop 0 invariant builtMethod != nil && httpOpt != nil && builtMethod.HttpPath == rulePathOf(httpOpt) && len(pathParts) == splitN(rulePathOf(httpOpt), "/") && (len(pathParts) == 0 || fresh(pathParts))
+//@   loop 0 invariant forall j int {pathParts[j]} :: 0 <= j && j < $iter ==> (splitAt(rulePathOf(httpOpt), "/", j) == "" || !isParam(splitAt(rulePathOf(httpOpt), "/", j)) ==> pathParts[j] == splitAt(rulePathOf(httpOpt), "/", j))
+//@   loop 0 invariant forall j int {pathParts[j]} :: 0 <= j && j < $iter ==> (splitAt(rulePathOf(httpOpt), "/", j) != "" && isParam(splitAt(rulePathOf(httpOpt), "/", j)) ==> hasPrefix(pathParts[j], ":"))
+//@   loop 0 invariant forall j int {pathParts[j]} :: $iter <= j && j < len(pathParts) ==> pathParts[j] == splitAt(rulePathOf(httpOpt), "/", j)
+//@ spec func rulePathOf(r *annotations.HttpRule) string =
+//@   | typeis(r.Pattern, *annotations.HttpRule_Get) ? as(*annotations.HttpRule_Get, r.Pattern).Get :
+//@   | typeis(r.Pattern, *annotations.HttpRule_Post) ? as(*annotations.HttpRule_Post, r.Pattern).Post :
+//@   | typeis(r.Pattern, *annotations.HttpRule_Put) ? as(*annotations.HttpRule_Put, r.Pattern).Put :
+//@   | typeis(r.Pattern, *annotations.HttpRule_Delete) ? as(*annotations.HttpRule_Delete, r.Pattern).Delete :
+//@   | typeis(r.Pattern, *annotations.HttpRule_Patch) ? as(*annotations.HttpRule_Patch, r.Pattern).Patch : ""
